@@ -259,13 +259,13 @@ func genC15(e *emitter, r *rng, tier string) {
 	if tier == "thorough" {
 		n = 1500
 	}
-	planted := []int{0, 1, 50, 97, 98, 99, 100, 101, 150, 198, 199, 200, 201, 450, 2500}
+	planted := []int{0, 1, 50, 97, 98, 99, 100, 101, 150, 198, 199, 200, 201, 450, 2500, 5000, 9000}
 	for i := 0; i < n; i++ {
 		var ns numSpec
 		if r.coin(70) {
 			ns = genNumber(-1, r.rangeInt(-3, 5), false)
 		} else {
-			ns = genNumber(r.pick([]int{100, 101, 250, 300, 2600}), 2, false)
+			ns = genNumber(r.pick([]int{100, 101, 250, 300, 2600, 9100}), 2, false)
 		}
 		b := newScriptBuilder(r, ns)
 		h := 0
@@ -469,6 +469,8 @@ func genC13(e *emitter, r *rng, tier string) {
 
 // conc v<k> <numdesc> <prog>|<prog>|... => <res>|<res>|... ## <cons>
 func runConc(v int, desc string, progs []string) string {
+	separate := strings.HasPrefix(desc, "X") // every goroutine builds and uses its OWN Number
+	desc = strings.TrimPrefix(desc, "X")
 	env, err := newScriptNumber(v, desc)
 	if err != "" {
 		return err
@@ -482,6 +484,11 @@ func runConc(v int, desc string, progs []string) string {
 			defer wg.Done()
 			// each goroutine has its own handle/iterator tables but shares the base Number
 			local := &scriptEnv{v: env.v, handles: []handle{env.handles[0]}, src: env.src}
+			if separate {
+				if own, e2 := newScriptNumber(v, desc); e2 == "" {
+					local = own
+				}
+			}
 			var res []string
 			<-start
 			for _, st := range strings.Split(p, ";") {
@@ -492,6 +499,9 @@ func runConc(v int, desc string, progs []string) string {
 	}
 	close(start)
 	wg.Wait()
+	if separate {
+		return strings.Join(results, "|") + " ## na"
+	}
 	return strings.Join(results, "|") + " ## " + env.consulted()
 }
 
@@ -540,12 +550,16 @@ func genC05(e *emitter, r *rng, tier string) {
 			}
 			progs = append(progs, b.String())
 		}
+		desc := ns.desc
+		if ns.length == -2 && r.coin(50) {
+			desc = "X" + desc // different Numbers (same value) used concurrently: they must not share state
+		}
 		for v := 1; v <= 3; v++ {
-			res := guarded(30*time.Second, func() string { return runConc(v, ns.desc, progs) })
+			res := guarded(30*time.Second, func() string { return runConc(v, desc, progs) })
 			if res == "hang" {
 				res = "!!hang"
 			}
-			e.line("conc", fmt.Sprintf("v%d %s %s", v, ns.desc, strings.Join(progs, "|")), res)
+			e.line("conc", fmt.Sprintf("v%d %s %s", v, desc, strings.Join(progs, "|")), res)
 		}
 		e.count(fmt.Sprintf("C05.readers%d", readers))
 	}
